@@ -92,6 +92,16 @@ func init() {
 	stdModels["(*bytes.Buffer).Bytes"] = stdModels["(*strings.Builder).String"]
 	stdModels["(*bytes.Buffer).Len"] = stdModels["(*strings.Builder).Len"]
 	stdModels["(*bytes.Buffer).Reset"] = stdModels["(*strings.Builder).Reset"]
+	// utf8.EncodeRune(p, r): the encoding of r is written over the first bytes of p (a []byte is a byte string here)
+	stdModels["unicode/utf8.EncodeRune"] = func(ec *evalCtx, call *ast.CallExpr, recv Value, args []Value) Value {
+		p, r := scalar(args[0]), scalar(args[1])
+		enc := ec.e().encodeRune(ec.st, r)
+		ec.oblige("bounds", Le(StrLen(enc), StrLen(p)), call.Pos(), "utf8.EncodeRune: buffer too short for the encoded rune")
+		lv := ec.lvalue(call.Args[0])
+		lv.set(Concat(enc, Substr(p, StrLen(enc), StrLen(p))))
+		ec.e().trusted["std:unicode/utf8.EncodeRune"] = true
+		return StrLen(enc)
+	}
 	stdModels["fmt.Errorf"] = func(ec *evalCtx, call *ast.CallExpr, recv Value, args []Value) Value {
 		id := Var(ec.e().fresher.name("fmt.Errorf"), SInt)
 		ec.st.Assume(Not(Eq(id, Int(0))))
